@@ -7,6 +7,7 @@
   data length recomputed — and the new position of the reference offset.
 -/
 import DnsModel.Lemmas.CanonRun
+import DnsModel.Tie.Reader
 namespace Dns.C05
 open Dns Res
 
@@ -423,5 +424,18 @@ def okExpanded : Bytes :=
    41, 4, 208, 0, 0, 0, 0, 0, 6, 0, 10, 0, 2, 7, 7]
 example : uncompress C02.okPacket = .ok okExpanded := by decide +kernel
 example : uncompress okExpanded = .ok okExpanded := by decide +kernel
+
+
+/-! ### Tie to the current source text
+The name copier decompression is built from (`Compress::raw_name_len`, `raw_name_len_after_decompression`, `copy_uncompressed_name`,
+`SuffixDict::raw_names_eq_ignore_case`) are re-translated from /repo/src/compress.rs by rs2lean.py on every run
+(`Generated/TrReader.lean`) and proved equal to the model functions used above (`Tie/Reader.lean`). -/
+theorem source_reader_tie (p pre n1 n2 : Bytes) (off : Nat) :
+    Tr.Reader.raw_name_len p = rawNameLen p ∧
+    Tr.Reader.raw_name_len_after_decompression p off = rawNameLenAfterDecompression p off ∧
+    Tr.Reader.copy_uncompressed_name pre p off
+      = (copyUncompressedName p off >>= fun r => Res.ok ((r.1.length, r.2), pre ++ r.1)) ∧
+    Tr.Reader.raw_names_eq_ignore_case n1 n2 = .ok (rawNamesEqIgnoreCase n1 n2) :=
+  Tie.reader_tie p pre n1 n2 off
 
 end Dns.C05
